@@ -84,7 +84,7 @@ pub fn exec(checker: &str, project: &Project, config: &Value) -> Value {
 
 pub fn gen(out: &mut Out, _sub: &str) {
     let mut rng = Rng::new(out.seed ^ 0xC16);
-    let n = out.size(500, 6_000);
+    let n = out.size(400, 15_000);
     for _ in 0..n {
         let mut r = rng.fork();
         let dens = *r.pick(&[1u64, 2, 3]);
